@@ -87,6 +87,13 @@ def _build(kind, shape, g, ctx):
                 return np.zeros(shape, dtype=np.int64)
             return None
         return g.integers(0, n, size=shape).astype(np.int64)
+    if kind.startswith("nidx:"):  # int64 indices in either spelling: -(n-1) .. n-1 (with_insertions accepts -num_v .. num_v)
+        n = int(ctx.get(kind[5:], 0))
+        if n <= 0:
+            if int(np.prod(shape)) == 0:
+                return np.zeros(shape, dtype=np.int64)
+            return None
+        return g.integers(-(n - 1), n, size=shape).astype(np.int64)
     if kind.startswith("sidx:"):  # strictly increasing interior indices (sectioned breakpoints)
         n = int(ctx.get(kind[5:], 0))
         size = int(np.prod(shape))
@@ -408,7 +415,7 @@ reg("Line.intersect_line", [], [{}], lambda A, S: S[0].intersect_line(S[1]), sel
 PSELF = ["polyline_open", "polyline_closed"]
 reg("Polyline.__init__", [("v", "f")], [{"v": K3}], ctor("Polyline", "v", is_closed=True))
 reg("Polyline.index_of_vertex", [("point", "vtx")], [{"point": P3}], meth("index_of_vertex", "point"), selfs=PSELF)
-reg("Polyline.with_insertions", [("points", "f"), ("indices", "idx:num_v1")], [{"points": K3, "indices": ("k",)}],
+reg("Polyline.with_insertions", [("points", "f"), ("indices", "nidx:num_v1")], [{"points": K3, "indices": ("k",)}],
     meth("with_insertions", "points", "indices", ret_new_indices=True), selfs=PSELF)
 reg("Polyline.aligned_with", [("vector", "nz")], [{"vector": P3}], meth("aligned_with", "vector"), selfs=["polyline_open"])
 reg("Polyline.aligned_along_subsegment", [("p1", "f"), ("p2", "ff")], same(["p1", "p2"], P3, None),
